@@ -340,7 +340,11 @@ static cfg_opt_t *cfg_getopt_secidx(cfg_t *cfg, const char *name,
 			return NULL;
 
 		name += len;
+		if (*name && *name != '|')
+			return NULL;	/* garbage after a quoted title */
 		name += strspn(name, "|");
+		if (!*name && name[-1] == '|')
+			return NULL;	/* stray separator at the end */
 	}
 
 	if (!index) {
